@@ -288,6 +288,14 @@ def _verify_variant(spec, reg, fsrc, modenv, ptypes, label, res):
     for kind, s, val in outs:
         if kind == 'next':
             kind, val = 'return', NONE
+        if kind in ('continue', 'break') and spec.get('fragment'):
+            # a fragment taken from inside a loop of its function: leaving it
+            # towards the enclosing loop ends the fragment; which way it left is
+            # visible to the contract as `exit_kind`
+            s.env['exit_kind'] = C.lift(kind)
+            kind, val = 'return', NONE
+        elif spec.get('fragment') and kind == 'return' and 'exit_kind' not in s.env:
+            s.env['exit_kind'] = C.lift('next' if val is NONE else 'return')
         if kind == 'return':
             n_ret += 1
             ex.cur_line = None
